@@ -168,7 +168,7 @@ def run_rules(prop, tier='quick', overlay=None, repo=None):
   ctx.P.check_floors()
   try:
     mod.run(ctx)
-  except AnalysisError as e:
+  except Exception as e:
     # an anchor that vanished *after* violations were already established does not mask them
     if any(not o.ok for o in ctx.obligations):
       ctx.note('analysis stopped early (%s); the violations found before that point are the verdict' % e)
